@@ -20,10 +20,15 @@ JS = [
     b"function Foo() {\n  this.list = [];\n}\nFoo.prototype.push = function(a) {\n  this.list.push(a);\n}\nFoo.prototype.last = function() {\n  return this.list.pop();\n}\n",
     b"var x = (function (a, b) {\n return a.p + b.q.r;\n})(1, 2);\nf(x.y, x.y.z);\n",
     b"a.b.c = d.e;\nthis.a.b = this.c;\ng(h.i)\n",
+    # definition and calls in ONE atom (minified / one-line scripts)
+    b"function f(a){return a};f(1)\n",
+    b"function g(x,y){return x+y};g(1,2);g(3,4)\nvar h = function(p){return p.q};h(o.r)\n",
 ]
 
 
 HUNG = set()
+# the inputs of the recorded finding replace-arguments-grows (known_findings.json): only these match it
+KNOWN_GROWING = {b"function f(a){}\nf(function f(x){})\n", b"a; f(1); function f(a){}\n"}
 
 
 def clog2(n):
@@ -84,7 +89,7 @@ def one(ctx, name, cfg, kind, f, decider, do_model=True, label="", cut=None):
             return cuts == {q for q in range(1, len(data_)) if data_[q - 1] in cut[1] or data_[q] in cut[0]}
         grown = [a for a in run.atts if a["tag"] == 3 and a["resp"] == "a" and nred(a["cand"]) > nred(a["best_before"])]
         regrown = name == "minimize-collapse-brace" and bool(grown) and all(resplit_ok(a["cand"]) for a in grown)
-        if name == "replace-arguments-by-globals" and grew:
+        if name == "replace-arguments-by-globals" and grew and b"".join(f[1]) in KNOWN_GROWING:
             ctx.fail("replace-arguments-grows", f"{tests}+ tests > bound {bound} on B={B} bytes (the file grows)", case)
         elif regrown and byte_bound_holds(name, cfg, kind, f, decider, cut, B):
             # more atoms after the re-load of a collapsed text than before: the bound in the INITIAL atom count is exceeded,
@@ -291,6 +296,8 @@ def hill_climb(ctx, rounds):
 
 def known_finding_cases(ctx):
     res = loaders.real_load("line", b"function f(a){}\nf(function f(x){})\n")
+    one(ctx, "replace-arguments-by-globals", dict(), "line", strat.fields(res[1]), lambda k, c: True, False, "known-finding")
+    res = loaders.real_load("line", b"a; f(1); function f(a){}\n")
     one(ctx, "replace-arguments-by-globals", dict(), "line", strat.fields(res[1]), lambda k, c: True, False, "known-finding")
     # brace collapsing with `--cut-after ' '`: 3 atoms, the last one holds 6 brace pairs `xI{\n}`; collapsing turns every
     # `{\n}` into `{ }`, and the re-load cuts after each of the new spaces
